@@ -14,6 +14,12 @@ CLAIMED = {
  "C19": ("TLA+ specification of the LSP relative token encoding and its decoder (SemTokens.tla) model-checked by TLC; every enumerated (document, highlight list) replayed into the real encoder through the hook",
          "TLC checks Decode(Encode(P)) = P, strict increase, non-overlap and in-line bounds on all documents up to the bound with multi-byte characters before/inside highlighted ranges x all sorted single-line highlight lists x tags, and emits for each the array a conforming encoder must produce; glas' to_semantic_tokens is run on each and compared verbatim (exhaustive within the bound).",
          "covers the encoder for arbitrary highlight lists; which identifiers the analysis highlights on real programs is checked with the scoping generator (added when GleamGen lands)", "4 C19, 3.6"),
+ "C01": ("TLA+ model of the event-stream tree builder (TreeBuilder.tla) model-checked by TLC; TLC-enumerated inputs (ParseTotal.tla) parsed by the real parser; recorded builder traces validated against TreeBuilder by TLC (Trace_TreeBuilder.tla)",
+         "TLC proves on the design (all raw token sequences <= 5 x all event streams satisfying the parser's contract) that the builder emits every raw token exactly once in order; TLC enumerates all token-kind sequences <=2 over the 70 lexer kinds / <=3 over representative classes and all strings <=3 over 30 characters, each placed in 21 syntactic contexts (plus corpus prefixes, CRLF, soup): the real tree's leaves must concatenate to the input with contiguous non-empty ranges; 1500+ recorded event/cursor traces of real parses are accepted by the trace specification (contract: one Advance per non-trivia token, balanced; rule: only trivia on Open/Close, trivia* + one token on Advance, full flush at the end).",
+         "trusts TLC, the rendering of kinds to spellings, rowan's token iteration; exhaustive only within the stated lengths", "4 C01, 3.2"),
+ "C02": ("TLC-enumerated adversarial inputs (ParseTotal.tla: token/character sequences, nesting towers, chains) executed against the real parser with panic/abort/timeout observation; TLC model of the fuel/depth progress guard",
+         "every enumerated input (same spaces as C01, plus towers opener^n for 20 recursive constructs up to 10^4 quick / 10^6 thorough and left-nested chains up to 10^5, each in a child process) must return; observable returned/panicked/aborted/timeout. The abstract progress model (look-ahead burns fuel, unwinding at end of input consumes nothing) is model-checked: the guard is safe below F/U open levels and TLC exhibits the counterexample above it.",
+         "a parse running longer than 20 s in-process / 120 s in a tower child counts as non-termination; tree building is quadratic in chain length today, so chain heights stop at 10^5", "4 C02, 3.5"),
 }
 NOT_YET = "check not built yet in this revision of /verif (work in progress; see DESIGN.md section 8)"
 
